@@ -159,6 +159,9 @@ let main_seq file do_abs =
   let prev_free = ref (0, 0) in
   let kinodes = ref [] and kdirs = ref [] in
   let ltrace = ref [] in
+  let enum = ref None in
+  let calltoks = ref [] in
+  let dirty = ref true and last_abs = ref ("", 0, 0, true) and last_counts = ref (0, 0) in
   let ntxn_total = ref 0 and nacq_total = ref 0 in
   let nsteps = ref 0 in
   (try
@@ -175,6 +178,7 @@ let main_seq file do_abs =
        | "U" :: b :: _ -> st := set_unstable !st (b = "1")
        | "C" :: rest ->
          (match rest with id :: nm :: _ -> callid := id; callname := nm | _ -> ());
+         calltoks := rest;
          call := Some (parse_call rest)
        | "R" :: rest ->
          let (o, v) = parse_reply rest in
@@ -182,8 +186,27 @@ let main_seq file do_abs =
          (match v with Some v -> verfs := v :: !verfs | None -> ())
        | "D" :: a :: d :: _ ->
          let b = if d = "z" then zeros (n_of_int 4096) else bytes_of_hex d in
+         dirty := true;
          disk := disk_set !disk (n_of_string a) b
        | "A" :: fb :: fi :: q :: _ -> alloc := (int_of_string fb, int_of_string fi, q = "1")
+       | "M" :: "enum-begin" :: id :: _ -> enum := Some (id, ref [], ref None, ref [])
+       | "M" :: "enum-end" :: id :: how :: _ ->
+         (match !enum with
+          | Some (_, seen, first, bad) ->
+            if how = "stuck" then bad := "no-progress" :: !bad;
+            if how = "overrun" then bad := "does-not-terminate" :: !bad;
+            (match !first with
+             | Some (di, names0) when how = "eof" ->
+               (* every entry that was in the directory throughout must have been returned *)
+               let now = enum_names !st di in
+               List.iter (fun nm -> if List.mem nm now && not (List.mem nm !seen) then
+                             bad := ("missed:" ^ String.concat "" (List.map (fun b -> Printf.sprintf "%02x" (int_of_n (Extracted.to_N b))) nm)) :: !bad) names0
+             | _ -> ());
+            if !bad <> [] then
+              Printf.printf "S e%s enum REPLY=0 NABS=0 NWF=0 ALLOC=1 expected=enumeration:%s observed_code=0\n" id (String.concat "," (List.rev !bad))
+            else Printf.printf "S e%s enum REPLY=1 NABS=0 NWF=0 ALLOC=1\n" id
+          | None -> ());
+         enum := None
        | "L" :: rest -> ltrace := rest
        | "K" :: i :: enc :: _ -> kinodes := (n_of_string i, bytes_of_hex enc) :: !kinodes
        | "KD" :: i :: _ :: n :: rest ->
@@ -200,9 +223,16 @@ let main_seq file do_abs =
            | Some c, Some o ->
              let h = hint_of c o in
              let (s', r) = step !params !st c h in
+             if s' != !st then dirty := true;
              st := s';
              let (pfb, pfi) = !prev_free in
              (* an out-of-space answer is believed only when space really is short *)
+             (match !enum, r, o with
+              | Some (_, seen, first, bad), RDir (di, _), ODir (N0, ents, _) ->
+                if !first = None then first := Some (di, enum_names s' di);
+                List.iter (fun e -> if List.mem e.de_name !seen then (if not (List.mem "duplicate" !bad) then bad := "duplicate" :: !bad)
+                            else seen := e.de_name :: !seen) ents
+              | _ -> ());
              let ok = agree s' r o &&
                       (match h, r with
                        | HShort _, RWritten _ -> nospace_plausible c (n_of_int pfb) (n_of_int pfi)
@@ -226,7 +256,14 @@ let main_seq file do_abs =
              ok, (if ok then "" else Printf.sprintf " expected=%s observed_code=%d%s" (show_reply r) (int_of_n (code_of o)) diag)
            | _ -> true, "" in
          let abs_s, nabs, nwf, alloc_ok =
-           if do_abs then begin
+           if do_abs && not !dirty && !kinodes = [] && !kdirs = [] && (let (_, _, _, a) = !last_abs in a) then begin
+             (* disk and reference unchanged: only the in-memory allocators can have moved *)
+             let (dfb, dfi) = !last_counts in
+             if (not quiescent) || (dfb = fb && dfi = fi) then !last_abs
+             else (Printf.sprintf " alloc=mem(%d,%d)/disk(%d,%d)" fb fi dfb dfi, 0, 0, false)
+           end
+           else if do_abs then begin
+             dirty := false;
              let ar = abs_disk !params.p_name_max !params.p_maxfilesize !sz quiescent !disk in
              let mm = cmp_state !st ar in
              let l = mk_layout !sz in
@@ -242,8 +279,24 @@ let main_seq file do_abs =
                      (if ar.r_errs = [] then "" else " wf=" ^ String.concat "," (List.map show_err (take 6 ar.r_errs))) ^
                      (if cache_bad <> [] then " alloc=cache:" ^ String.concat "," (take 4 cache_bad)
                       else if aok then "" else Printf.sprintf " alloc=mem(%d,%d)/disk(%d,%d)" fb fi disk_fb disk_fi) in
-             s, List.length mm, List.length ar.r_errs, aok
+             last_counts := (disk_fb, disk_fi);
+             last_abs := (s, List.length mm, List.length ar.r_errs, aok);
+             !last_abs
            end else "", 0, 0, true in
+         (* READDIR page = slot-model page (only when the reply is OK and the cookie is slot-aligned) *)
+         let detail =
+           match !calltoks, !oreply with
+           | _ :: "readdir" :: _ :: cookie :: count :: _, Some (ODir (N0, ents, eof)) when do_abs ->
+             (match !call with
+              | Some (CReaddir (h, _)) ->
+                (match parse_handle h with
+                 | Some (i, _) ->
+                   if readdir_matches_model !sz !disk i (n_of_string cookie) (n_of_string count) ents eof then detail
+                   else detail ^ " pagemodel=differs"
+                 | None -> detail)
+              | _ -> detail)
+           | _ -> detail in
+         let reply_ok = reply_ok && not (String.length detail >= 17 && (try ignore (Str.search_forward (Str.regexp_string "pagemodel=differs") detail 0); true with Not_found -> false)) in
          (* R-trace: lock/commit discipline of every transaction of this RPC *)
          let trace_bad =
            if !ltrace = [] || !ltrace = ["-"] then [] else begin
